@@ -22,6 +22,8 @@
 (*   "SharedCache"  the buffer is a field of the shared Segment            *)
 (*   "LookAhead"    the length prefixes are read with a fixed look-ahead   *)
 (*                  of Look bytes instead of "what is left of the block"   *)
+(*   "PutEarly"     the context is back in the pool while its buffer is    *)
+(*                  still being read (seeded C09-n, C06-l)                 *)
 (***************************************************************************)
 EXTENDS Integers, Sequences, FiniteSets, TLC, Json
 
@@ -96,7 +98,11 @@ Decomp(p) ==
                                      cap |-> IF @.cap < sz THEN sz + Slack ELSE @.cap]]
        /\ stack' = SetTop(p, [f EXCEPT !.pc = "slice"])
        /\ Log(p, "decomp", f.doc)                            \* gate "stored:decompressed"
-    /\ UNCHANGED <<visits, free, nctx, bad>>
+       \* deviation "PutEarly": the context goes back to the pool as soon as the block is decompressed, while its
+       \* buffer is still being read (a helper with `defer Put` that returns the buffer - seeded C09-n; a second Put
+       \* on an error path has the same effect - seeded C06-l)
+       /\ free' = IF "PutEarly" \in Dev /\ f.ctx > 0 THEN free \cup {f.ctx} ELSE free
+    /\ UNCHANGED <<visits, nctx, bad>>
 
 \* reading the length prefixes and slicing the record
 Slice(p) ==
